@@ -178,7 +178,13 @@ def ob_owned_agreement(chk, P):
                             ob.decide(ex, s2.conds, z3.BoolVal(a != b)); bad = a != b; m = None
                         if bad:
                             what = f'<{selfty} as ValueView>::{mname}' + (f'({extra_of})' if extra_of else '') + f' on {name}: the view answers {a}, the owned value answers {b}'
-                            ob.violation(f'views/{selfty}/{mname}' + (f'/{extra_of}' if extra_of else ''), what, {'view': name, 'method': mname, 'state': extra_of}, {'kind': 'views'}, lambda r: r.get('outcome') == 'violation')
+                            sc = {'kind': 'views'}
+                            if isinstance(view, StrV):          # string views: hand the solver's string to the native driver, which compares every string type with the owned value
+                                mm = m if m is not None else ob.decide(ex, s2.conds, z3.BoolVal(True))
+                                if mm is not None:
+                                    txt = ''.join(chr(c) if isinstance(c, int) else chr(mm.eval(c, model_completion=True).as_long()) for c in view.chars)
+                                    sc = {'kind': 'views', 'strings': [txt]}; what += f' (string {txt!r})'
+                            ob.violation(f'views/{selfty}/{mname}' + (f'/{extra_of}' if extra_of else ''), what, {'view': name, 'method': mname, 'state': extra_of}, sc, lambda r: r.get('outcome') == 'violation')
             ob.sample({'view': name})
         ob.absorb(ex)
 
